@@ -11,6 +11,12 @@ CLAIMS = {
        "Tie: the executable model is replayed in lock-step with stream.rs/stream_buffer.rs on generated scripts comparing each result and the six window fields after every call; an independent Vec oracle in the harness searches for concrete failing scripts.",
   note="Trusted: Lean kernel; axioms ⊆ {propext, Classical.choice, Quot.sound}; translator for STREAM_BUFFER_MIN/GROWTH; the harness and its generator (differential testing can miss); the flushed store is abstracted to list functions (the chain layer underneath is exercised only through the final read-back of each script).",
   design="§3 C06"),
+ "C09": dict(
+  technique="Lean 4 proofs about the path.rs model (order = comparison of (UTF-16 length, upper-cased code units) incl. the ASCII fast path, total-order laws, validation iff, path normalisation laws; table facts by kernel evaluation over the upper-casing table regenerated from the running code) + differential replay of the three pure functions through hook H2",
+  text="Proof: CfbVerif.Props.C09 — compare_names (both code paths) equals the key comparison (C09_cmp_key) with the library's generated upper-casing table, hence reflexive/antisymmetric/transitive/equality-compatible (C09_cmp_laws, C09_eq_iff); validate_name accepts iff <=31 UTF-16 units and none of / \\ : ! (C09_validate); '..', '.', root, leading and trailing slashes normalise as stated and escaping paths are refused (C09_path_norm, C09_path_slashes). "
+       "Tie: constants and the 0x110000-scalar upper-casing dump are regenerated on every run; 200k (quick) calls of the real functions are compared with the model; an independent CFB-order oracle searches for failing names. The sibling-set/API half of the property is decided by the directory model of C01.",
+  note="Trusted: Lean kernel; axioms ⊆ {propext, Classical.choice, Quot.sound}; translator + H2 dump; harness generators. Assumption: the upper-casing table is the library's (MS-CFB's normative table is unavailable offline); Path::components modelled for UTF-8 Unix paths.",
+  design="§3 C09"),
 }
 
 def main():
